@@ -93,7 +93,8 @@ def run_N11(chk):
     import ast as _ast
     from ..core import astutil as A_
     prog = chk.prog
-    chk.rule("N11", "every contiguity scan of the no-change fast paths is closed by a comparison of the reached position with the total", floor=1)
+    chk.rule("N11", "every contiguity scan of the no-change fast paths is closed by a comparison of the reached position with the total", floor=0)
+    found_ = 0
     for fname in ("_no_change_in_transpose_and_merge",):
         f = prog.func("yastn.tensor._merging", fname)
         for owner in _ast.walk(f.node):
@@ -109,13 +110,19 @@ def run_N11(chk):
                             and isinstance(a_, _ast.Assign) and isinstance(a_.targets[0], _ast.Name) and a_.targets[0].id == t_.test.comparators[0].id):
                         continue
                     pos = a_.targets[0].id
+                    found_ += 1
                     nxt = body[i + 1] if i + 1 < len(body) else None
-                    closed = isinstance(nxt, _ast.If) and isinstance(nxt.test, _ast.Compare) and any(isinstance(x, _ast.Name) and x.id == pos for x in _ast.walk(nxt.test)) \
-                        and any(isinstance(x, _ast.Return) for x in nxt.body)
+                    closed = isinstance(nxt, _ast.If) and any(isinstance(x, _ast.Compare) for x in _ast.walk(nxt.test)) \
+                        and any(isinstance(x, _ast.Name) and x.id == pos for x in _ast.walk(nxt.test)) and any(isinstance(x, _ast.Return) for x in nxt.body)
+                    # ... or the position is returned as part of the verdict (`return low == total`)
+                    if not closed and isinstance(nxt, _ast.Return) and nxt.value is not None and any(isinstance(x, _ast.Name) and x.id == pos for x in _ast.walk(nxt.value)):
+                        closed = True
                     chk.verdict("N11", (f, lp), f"{fname}: scan `{A_.short(lp, 50)}` closed by `{A_.short(nxt, 40) if closed else '-'}`", True if closed else False,
                                 f"{fname}(): the scan `{A_.short(lp, 60)}` checks that consecutive pieces touch, but `{pos}` is not compared with the total behind "
                                 f"the loop: a layout whose pieces cover only the beginning of the data is taken for 'nothing to do' and the data is handed on "
                                 f"unmerged (the result then depends on which policy / fusion mode reaches this fast path)")
+    if not found_:
+        chk.note("N11: no contiguity scan of the form `if piece[0] != low: return False; low = piece[1]` in _no_change_in_transpose_and_merge (other spelling): not decided")
 
 
 def run_N9(chk):
